@@ -24,15 +24,15 @@ structure Meta where
 
 inductive A where
   | container (name : Tok) (m : Meta) (presence : Bool) (kids : List A)
-  | list (name : Tok) (m : Meta) (keys : List Tok) (kids : List A)
+  | list (name : Tok) (m : Meta) (keys : List Tok) (mn mx : Option Nat) (kids : List A)
   | leaf (name : Tok) (m : Meta) (mandatory : Bool) (dflt : Option Bytes)
-  | leafList (name : Tok) (m : Meta)
+  | leafList (name : Tok) (m : Meta) (mn mx : Option Nat)
   | choice (name : Tok) (m : Meta) (mandatory : Bool) (dflt : Option Tok) (cases : List A)
   | case (name : Tok) (m : Meta) (kids : List A)       -- `config` is not a substatement of case
 
 def A.meta : A → Meta
-  | .container _ m _ _ => m | .list _ m _ _ => m | .leaf _ m _ _ => m
-  | .leafList _ m => m | .choice _ m _ _ _ => m | .case _ m _ => m
+  | .container _ m _ _ => m | .list _ m _ _ _ _ => m | .leaf _ m _ _ => m
+  | .leafList _ m _ _ => m | .choice _ m _ _ _ => m | .case _ m _ => m
 
 inductive Kind | container | list | leaf | leafList | choice | case
   deriving Repr, DecidableEq
@@ -45,6 +45,8 @@ structure Attr where
   flag : Bool := false             -- presence (container) / mandatory (leaf, choice)
   dflt : Option Bytes := none      -- default value (leaf) / default case (choice)
   keys : List Tok := []
+  mn : Option Nat := none          -- min-elements / max-elements as written
+  mx : Option Nat := none
   deriving Repr, DecidableEq
 
 inductive CN where
@@ -74,8 +76,34 @@ def inherit (m : Meta) (inh : Inh) : Except String Inh := do
   let cfg ← getConfig m inh.cfg
   pure { cfg := cfg, st := st }
 
+/-- the verified features: which are enabled (themselves and everything they depend on), and the status
+    of every declared feature -/
+structure FeatEnv where
+  enabled : List Tok := []            -- module-qualified names "mod:feature"
+  status : List (Tok × Nat) := []
+  localMod : Tok := []                -- the module the body being built is written in
+
+/-- the module part of a qualified feature name -/
+def modOf (key : Tok) : Tok := key.takeWhile (· ≠ 58)
+
+/-- the loop of `IgnoreNode` over the if-feature statements: `CheckIfFeature` looks the feature up, checks
+    that the node may reference it (`assertReferenceStatus`) and asks whether it is enabled; the first
+    disabled feature ends the loop -/
+def iffLoop (env : FeatEnv) (m : Meta) (parentSt : Nat) : List Tok → Except String Bool
+  | [] => pure false
+  | f :: r => do
+    let nst ← getStatus m parentSt
+    match env.status.lookup f with
+    | none => .error "feature not valid"
+    | some fst =>
+      -- assertReferenceStatus: only within one module
+      if modOf f = env.localMod && nst < fst then .error "node cannot reference node within same module"
+      else if !env.enabled.contains f then pure true
+      else iffLoop env m parentSt r
+
 /-- `IgnoreNode` -/
-def ignored (feat : List Tok) (m : Meta) : Bool := m.notSupported || m.iff.any fun f => !feat.contains f
+def ignoredM (env : FeatEnv) (m : Meta) (parentSt : Nat) : Except String Bool :=
+  if m.notSupported then pure true else iffLoop env m parentSt m.iff
 
 mutual
 /-- the names in the child map of a node with these built children (choices flattened) -/
@@ -101,26 +129,27 @@ def checkNames (names : List Tok) : Except String Unit :=
 
 mutual
 /-- `BuildNode` under the inherited properties `inh` with the filter `f` -/
-def build (f : Attr → Bool) (feat : List Tok) (inh : Inh) : A → Except String CN
+def build (f : Attr → Bool) (env : FeatEnv) (inh : Inh) : A → Except String CN
   | .container n m pr kids => do
     let i ← inherit m inh
-    let ks ← buildKids f feat i kids
+    let ks ← buildKids f env i kids
     checkNames (flatNames ks)
     pure (.mk { kind := .container, name := n, cfg := i.cfg, st := i.st, flag := pr } ks)
-  | .list n m keys kids => do
+  | .list n m keys mn mx kids => do
     let i ← inherit m inh
-    let ks ← buildKids f feat i kids
+    let ks ← buildKids f env i kids
     checkNames (flatNames ks)
-    pure (.mk { kind := .list, name := n, cfg := i.cfg, st := i.st, keys := keys } ks)
+    pure (.mk { kind := .list, name := n, cfg := i.cfg, st := i.st, keys := keys, mn := mn, mx := mx } ks)
   | .leaf n m mand d => do
     let i ← inherit m inh
-    pure (.mk { kind := .leaf, name := n, cfg := i.cfg, st := i.st, flag := mand, dflt := d } [])
-  | .leafList n m => do
+    if mand && d.isSome then .error "Leaf cannot have default and be mandatory."
+    else pure (.mk { kind := .leaf, name := n, cfg := i.cfg, st := i.st, flag := mand, dflt := d } [])
+  | .leafList n m mn mx => do
     let i ← inherit m inh
-    pure (.mk { kind := .leafList, name := n, cfg := i.cfg, st := i.st } [])
+    pure (.mk { kind := .leafList, name := n, cfg := i.cfg, st := i.st, mn := mn, mx := mx } [])
   | .choice n m mand d cases => do
     let i ← inherit m inh
-    let ks ← buildKids f feat i cases
+    let ks ← buildKids f env i cases
     if d.isSome && mand then .error "Choice cannot have default and be mandatory."
     else do
       checkNames (flatCaseNames ks)
@@ -133,23 +162,25 @@ def build (f : Attr → Bool) (feat : List Tok) (inh : Inh) : A → Except Strin
       | none => pure (.mk a ks)
   | .case n m kids => do
     let i ← inherit { m with cfg := none } inh
-    let ks ← buildKids f feat i kids
+    let ks ← buildKids f env i kids
     checkNames (flatNames ks)
     pure (.mk { kind := .case, name := n, cfg := i.cfg, st := i.st } ks)
 /-- `buildChildren`: ignore, build (with all its checks), then filter -/
-def buildKids (f : Attr → Bool) (feat : List Tok) (inh : Inh) : List A → Except String (List CN)
+def buildKids (f : Attr → Bool) (env : FeatEnv) (inh : Inh) : List A → Except String (List CN)
   | [] => pure []
   | a :: r =>
-    if ignored feat a.meta then buildKids f feat inh r
-    else do
-      let c ← build f feat inh a
-      let rest ← buildKids f feat inh r
-      pure (if f c.attr then c :: rest else rest)
+    do
+      let ig ← ignoredM env a.meta inh.st
+      if ig then buildKids f env inh r
+      else do
+        let c ← build f env inh a
+        let rest ← buildKids f env inh r
+        pure (if f c.attr then c :: rest else rest)
 end
 
 /-- a module body: top-level data definitions under (config true, status current) -/
-def compile (f : Attr → Bool) (feat : List Tok) (top : List A) : Except String (List CN) := do
-  let ks ← buildKids f feat {} top
+def compile (f : Attr → Bool) (env : FeatEnv) (top : List A) : Except String (List CN) := do
+  let ks ← buildKids f env {} top
   checkNames (flatNames ks)
   pure ks
 
